@@ -10,9 +10,16 @@ TypeSystemOps.tla.  Recorded: the full matrices of ``is_subtype``, ``is_maybe_su
 ``subtype_distance`` over the universe, ``is_subclass`` and Python's ``issubclass`` over the
 analysed classes, and the generator sets both providers offer for every requested type.
 
+Types that no annotation denotes -- the empty tuple ``tuple[()]`` is read as a tuple of unknown
+size by ``convert_type_hint`` -- are built directly (``TupleType(())``) in the analysed type
+system: they take part in every relation matrix and are requested from both providers, but no
+generator returns them.
+
 A history (cache part of C26) is replayed on a real ``ModuleTestCluster``; every call and its
-answer is recorded, at the end every asked query is asked again (cached answer) and
-recomputed on a fresh cluster that received the same updates without any query in between.
+answer is recorded together with the generator table of the provider after the call (key type
+of every registration and ``generated_type()`` of the registered generator), at the end every
+asked query is asked again (cached answer) and recomputed on a fresh cluster that received the
+same updates without any query in between.
 
 Nothing here decides a property: only driving, projecting and recording.
 """
@@ -53,6 +60,27 @@ def members_key(t) -> str:
     return t["k"] + ":" + t["c"] + "(" + ",".join(members_key(x) for x in t["a"]) + ")"
 
 
+def has_empty_tuple(t) -> bool:
+    """tuple[()] cannot be written as an annotation that pynguin reads as the empty tuple."""
+    return (t["k"] == "tuple" and not t["a"]) or any(has_empty_tuple(x) for x in t["a"])
+
+
+def build_real(t, tsm, type_info):
+    """The real ProperType for an abstract type, built without convert_type_hint."""
+    k = t["k"]
+    if k == "any":
+        return tsm.ANY
+    if k == "none":
+        return tsm.NONE_TYPE
+    if k == "inst":
+        return tsm.Instance(type_info(t["c"]), tuple(build_real(x, tsm, type_info) for x in t["a"]))
+    if k == "tuple":
+        return tsm.TupleType(tuple(build_real(x, tsm, type_info) for x in t["a"]))
+    if k == "union":
+        return tsm.UnionType(tuple(sorted(build_real(x, tsm, type_info) for x in t["a"])))
+    raise ValueError(k)
+
+
 def depth(t) -> int:
     return 0 if not t["a"] else 1 + max(depth(x) for x in t["a"])
 
@@ -71,6 +99,8 @@ def annotation(t, top: bool = True) -> str:
             return f"{t['c']}[{', '.join(annotation(x, False) for x in t['a'])}]"
         return t["c"]
     if k == "tuple":
+        if not t["a"]:
+            return "tuple[()]"
         return f"tuple[{', '.join(annotation(x, False) for x in t['a'])}]"
     if k == "union":
         return f"typing.Union[{', '.join(annotation(x, False) for x in t['a'])}]"
@@ -120,6 +150,8 @@ def class_source(user: list[str], hier: list[dict]) -> str:
 def render_static(case: dict, types: list[dict], name: str, directory: Path) -> None:
     src = ["import typing\n", class_source(case["user"], case["hier"])]
     for i, t in enumerate(types):
+        if has_empty_tuple(t):
+            continue            # built directly by analyse_static, no generator
         a = annotation(t)
         src.append(f"def f_{i}(x: {a}) -> {a}:\n    return x\n")
     (directory / f"{name}.py").write_text("\n".join(src))
@@ -255,7 +287,10 @@ def analyse_static(job: tuple) -> dict:
                 sigs[int(n[2:])] = acc.inferred_signature.original_parameters["x"]
         per[p] = sigs
     uni_real, uni_abs, index = {"G": [], "R": []}, [], {}
+    direct = [t for t in types if has_empty_tuple(t)]
     for i in range(len(types)):
+        if has_empty_tuple(types[i]):
+            continue
         if i not in per["G"] or i not in per["R"]:
             raise RuntimeError(f"function f_{i} not analysed in {mod}")
         a = proj(per["G"][i])
@@ -285,6 +320,25 @@ def analyse_static(job: tuple) -> dict:
                 lst.append({"name": _short(acc, mod), "ret": index[tkey(a)] + 1})
         gens[p] = sorted(lst, key=lambda g: g["name"])
     gname = {g["name"]: i + 1 for i, g in enumerate(gens["G"])}
+
+    # types without an annotation: built directly in both type systems
+    from pynguin.analyses import typesystem as tsm
+    for t in direct:
+        reals = {}
+        for p, c in clusters.items():
+            def info(cn, _ts=c.type_system):
+                ti = _ts.find_type_info(f"{mod}.{cn}" if cn in user else f"builtins.{cn}")
+                if ti is None:
+                    raise RuntimeError(f"class {cn} unknown to the type system of {mod}")
+                return ti
+            reals[p] = build_real(t, tsm, info)
+        a = proj(reals["G"])
+        if tkey(a) in index:
+            continue
+        index[tkey(a)] = len(uni_abs)
+        uni_abs.append(a)
+        for p in ("G", "R"):
+            uni_real[p].append(reals[p])
 
     n = len(uni_abs)
     ts = clusters["G"].type_system
@@ -395,6 +449,16 @@ class _Session:
                             "ret": self.proj(typ)})
         return sorted(out, key=lambda x: x["g"])
 
+    def table(self) -> list[dict]:
+        """The generator table of the provider as it is now: one record per registration with
+        the key type and the type the registered generator generates (reading only)."""
+        out = []
+        for typ, accs in self.cluster.generators.items():
+            for acc in accs:
+                out.append({"g": _short(acc, self.mod).replace(self.mod + "_extra.", ""),
+                            "key": self.proj(typ), "ret": self.proj(acc.generated_type())})
+        return sorted(out, key=lambda x: (x["g"], tkey(x["key"])))
+
     def add_edge(self, x: str, y: str) -> None:
         self.ts.add_subclass_edge(super_class=self.ti(x), sub_class=self.ti(y))
 
@@ -448,7 +512,8 @@ def replay_history(job: tuple) -> dict:
     _ensure_path(directory)
     _forget(mod, mod + "_extra")
     s = _Session(case, mod, prov)
-    events = [{"k": "init", "prov": prov, "user": list(case["user"]), "gens": s.gens_described()}]
+    events = [{"k": "init", "prov": prov, "user": list(case["user"]), "gens": s.gens_described(),
+               "tab": s.table()}]
     asked: list[dict] = []
     seen = set()
     updates = []
@@ -457,25 +522,26 @@ def replay_history(job: tuple) -> dict:
         if op == "add_edge":
             s.add_edge(act["x"], act["y"])
             updates.append(act)
-            events.append({"k": op, "x": act["x"], "y": act["y"]})
+            events.append({"k": op, "x": act["x"], "y": act["y"], "tab": s.table()})
         elif op == "add_gen":
             r = s.add_gen(act["x"])
             updates.append(act)
-            events.append({"k": op, "g": act["x"], "ret": r})
+            events.append({"k": op, "g": act["x"], "ret": r, "tab": s.table()})
         elif op == "update_ret":
             r = s.update_ret(act["x"], act["y"])
             updates.append(act)
-            events.append({"k": op, "g": act["x"], "c": act["y"], "ret": r})
+            events.append({"k": op, "g": act["x"], "c": act["y"], "ret": r, "tab": s.table()})
         elif op == "query":
             key = act["key"]
             ans = s.query(key)
             if tkey(key) not in seen:
                 seen.add(tkey(key))
                 asked.append(key)
-            events.append({"k": op, "key": key, "ans": ans})
+            events.append({"k": op, "key": key, "ans": ans, "tab": s.table()})
         else:
             raise ValueError(op)
     cached = [s.query(k) for k in asked]
+    final_tab = s.table()
     # recomputation: a fresh TypeSystem / cluster that received the same updates, no query before
     _forget(mod, mod + "_extra")
     f = _Session(case, mod, prov)
@@ -487,7 +553,7 @@ def replay_history(job: tuple) -> dict:
         else:
             f.update_ret(act["x"], act["y"])
     fresh = [f.query(k) for k in asked]
-    events.append({"k": "final",
+    events.append({"k": "final", "tab": final_tab,
                    "asked": [{"key": k, "cached": c, "fresh": r} for k, c, r in zip(asked, cached, fresh)]})
     _forget(mod, mod + "_extra")
     return {"ev": events}
